@@ -6,7 +6,7 @@ import os
 
 from hypothesis import strategies as st
 
-from vf.core import HarnessError, HypPart, Oracle, VERIF_DIR, spsdk_frame
+from vf.core import EnumPart, HarnessError, HypPart, Oracle, VERIF_DIR, spsdk_frame
 from vf.gen import keys as K
 from vf.ref import rot as R
 from vf.ref.certblock import CertBlockV1Ref
@@ -467,6 +467,50 @@ def _run_hab(case, o, fams, work) -> None:
             o.check("order", h3 != ref, "swap_does_not_change_hash", "swapping SRKs left the fuse value unchanged")
 
 
+
+# ------------------------------------------------------------------ every (family, revision) of the database, in both orders
+def run_revisions(case, o: Oracle) -> None:
+    """The RoT type belongs to the (family, revision) pair; asking about one revision must not colour the answer for another."""
+    from spsdk.utils.crypto.rot import Rot
+
+    fam = _CTX["rev_families"][case["i"]]
+    work = _CTX["work"]
+    revs = dict(_CTX["revs"][fam])
+    latest = _CTX["latest"].get(fam)
+    if latest in revs:
+        revs["latest"] = revs[latest]
+    order = list(revs)
+    if case.get("reverse"):
+        order.reverse()
+    o.label("revisions", "revs:%d" % len(order))
+    if len(set(revs.values())) > 1:
+        o.label("rot_type_differs_between_revisions")
+    o.nontrivial(len(order) > 1)
+    o.key(("revisions", fam, bool(case.get("reverse"))))
+    rsa = [{"t": "rsa", "bits": 2048, "i": i} for i in range(4)]
+    ec = [{"t": "ec", "curve": "secp256r1", "d": 0x1111 + 7 * i} for i in range(4)]
+    raw = [_raw_key(d) for d in rsa]
+    for rev in order + order:
+        rt = revs[rev]
+        if rt not in ("cert_block_1", "cert_block_21", "srk_table_ahab", "srk_table_ahab_v2", "srk_table_hab"):
+            o.label("rot_type_without_rot_class:" + rt)  # cert_block_x (DSC parts): not offered by the Rot helper
+            continue
+        with o.spsdk("revision", "%s/%s" % (fam, rev)):
+            o.eq("revision", "rot_type:%s/%s" % (fam, rev), Rot.get_rot_class(fam, rev).rot_type, rt)
+            if rt == "cert_block_1":
+                h = Rot(fam, rev, [_supply(d, "pub_der", work, None) for d in rsa[:2]]).calculate_hash()
+                o.eq("revision", "hash:%s/%s" % (fam, rev), h, R.rkth_v1([(k[1], k[2]) for k in raw[:2]]))
+            elif rt == "cert_block_21":
+                h = Rot(fam, rev, [_supply(d, "pub_der", work, None) for d in ec[:2]]).calculate_hash()
+                o.eq("revision", "hash:%s/%s" % (fam, rev), h, rot_hash_v21("secp256r1", [K.ec_public_xy("secp256r1", d["d"]) for d in ec[:2]]))
+            elif rt == "srk_table_ahab":
+                h = Rot(fam, rev, [_supply(d, "pub_der", work, None) for d in rsa]).calculate_hash()
+                o.eq("revision", "hash:%s/%s" % (fam, rev), h, R.ahab_srk_hash(raw))
+            elif rt == "srk_table_ahab_v2":
+                # no independent encoder of the version 2 table: it is not the version 1 value
+                h = Rot(fam, rev, [_supply(d, "pub_der", work, None) for d in rsa]).calculate_hash()
+                o.check("revision", h != R.ahab_srk_hash(raw), "hash:%s/%s" % (fam, rev), "version 2 SRK table family answers with the version 1 SRK hash")
+
 def parts(ctx):
     fams = _families(ctx)
     for rt in ("cert_block_1", "cert_block_21", "srk_table_ahab", "srk_table_hab"):
@@ -500,5 +544,8 @@ def parts(ctx):
     for rt, lst in fams.items():
         if rt in ahab_pairs:
             ahab_pairs[rt] += [(f, "latest") for f in lst]
-    _CTX.update(fams=fams, work=ctx.work, pfr=pfr, revs=revs, ahab_pairs=ahab_pairs)
-    return [HypPart("rot", _case(fams), run_case, {"quick": 900, "thorough": 40000})]
+    latest = {fam: db.devices[fam].latest for fam in revs}
+    _CTX.update(fams=fams, work=ctx.work, pfr=pfr, revs=revs, ahab_pairs=ahab_pairs, rev_families=sorted(revs), latest=latest)
+    nf = len(_CTX["rev_families"])
+    return [HypPart("rot", _case(fams), run_case, {"quick": 900, "thorough": 40000}),
+            EnumPart("revisions", lambda tier: 2 * nf, lambda tier, i: {"i": i % nf, "reverse": i >= nf}, run_revisions, exhaustive=True)]
